@@ -113,6 +113,8 @@ pub enum Step {
     /// a multi-key iterator is created, yields its first item, then `write` (on a key not yet yielded) is issued and acknowledged, then the
     /// iterator is drained: every `next()` is a read of its own
     IterAcrossWrite { keys: Vec<u64>, variant: usize, write: WriteOp },
+    /// like IterAcrossWrite, but between the first and the second item the clock passes the deadline of a key not yet yielded
+    IterAcrossAdvance { keys: Vec<u64>, variant: usize, delta_ns: u64 },
 }
 
 impl Step {
@@ -126,6 +128,8 @@ impl Step {
             Step::FullCycle => J::obj().with("op", J::s("full_sweep_cycle")),
             Step::IterAcrossWrite { keys, variant, write } => J::obj().with("op", J::s(["multi_get_iterator", "multi_get_map_iterator"][*variant % 2]))
                 .with("keys", J::Arr(keys.iter().map(|k| J::Int(*k as i128)).collect())).with("after_the_first_item", write.to_json()),
+            Step::IterAcrossAdvance { keys, variant, delta_ns } => J::obj().with("op", J::s(["multi_get_iterator", "multi_get_map_iterator"][*variant % 2]))
+                .with("keys", J::Arr(keys.iter().map(|k| J::Int(*k as i128)).collect())).with("clock_advanced_after_the_first_item_ns", J::Int(*delta_ns as i128)),
             Step::HeldDelete { key, then } => {
                 let mut o = J::obj().with("op", J::s("delete_with_worker_held")).with("key", J::Int(*key as i128));
                 if let Some(then) = then { o.set("then", then.to_json()); }
@@ -1220,6 +1224,13 @@ impl<'a> Run<'a> {
             2 => Step::Write(WriteOp::Delete { key }),
             3 => Step::Read { key, variant: self.rng.below(7) as usize },
             4 => {
+                // now and then one call over a long list (65-200 positions: the key universe, keys that were never written, repeats)
+                if !self.cfg.hit_only && self.rng.chance(1, 12) {
+                    let len = self.rng.range(65, 200);
+                    let keys: Vec<u64> = (0..len).map(|_| if self.rng.chance(1, 2) { self.rng.range(1, self.cfg.n_keys + 1) } else { 500_000 + self.rng.range(0, 500) }).collect();
+                    self.counts.inc("multi_key_reads_over_more_than_64_positions");
+                    return Step::MultiRead { keys, variant: self.rng.below(3) as usize };
+                }
                 let n = self.rng.range(1, self.cfg.n_keys.min(5));
                 let mut keys: Vec<u64> = Vec::new();
                 while (keys.len() as u64) < n { let k = self.rng.range(1, self.cfg.n_keys + 1); if !keys.contains(&k) { keys.push(k); } }
@@ -1228,6 +1239,15 @@ impl<'a> Run<'a> {
                     let again = *self.rng.pick(&keys);
                     for _ in 0..1 + self.rng.below(2) { let at = self.rng.below(keys.len() as u64 + 1) as usize; keys.insert(at, again); }
                     self.counts.inc("multi_key_reads_with_a_repeated_key");
+                }
+                // now and then: the clock passes the deadline of a key the iterator has not yielded yet
+                if !self.cfg.hit_only && !self.noise_on && self.rng.chance(1, 4) {
+                    let now = self.now() as u128;
+                    let due: Vec<(u64, u128)> = keys.iter().skip(1).filter(|k| **k != keys[0] && self.readable(**k)).filter_map(|k| self.model.get(k).and_then(|e| e.expiry).map(|x| (*k, x))).filter(|(_, x)| *x > now && *x - now < 3600 * NS as u128).collect();
+                    if let Some((_, expiry)) = due.first() {
+                        let delta = (*expiry - now) as u64 + 1 + self.rng.below(2) * NS;
+                        return Step::IterAcrossAdvance { keys, variant: self.rng.below(2) as usize, delta_ns: delta };
+                    }
                 }
                 // now and then: an iterator that is interrupted by an acknowledged write to a key it has not yielded yet
                 let distinct_tail: Vec<u64> = keys.iter().skip(1).copied().filter(|k| *k != keys[0] && self.readable(*k) && !self.at_deadline(*k)).collect();
@@ -1264,6 +1284,37 @@ impl<'a> Run<'a> {
                 if self.cfg.hit_only && !self.readable(*key) { return; }
                 self.sig = fnv_step(self.sig, 0x4EAD ^ (self.state(*key) as u64) << 8);
                 self.checked_read(*key, *variant, "generated read");
+            }
+            Step::IterAcrossAdvance { keys, variant, delta_ns } => {
+                if keys.iter().any(|k| self.at_deadline(*k)) { return; }
+                let cache = self.sut.cache.clone();
+                let refs: Vec<&u64> = keys.iter().collect();
+                let name = ["multi_get_iterator", "multi_get_map_iterator"][*variant % 2];
+                let mut plain = if *variant % 2 == 0 { Some(cache.multi_get_iterator(refs.clone())) } else { None };
+                let mut mapped = if *variant % 2 == 1 { Some(cache.multi_get_map_iterator(refs, |v| v)) } else { None };
+                let mut position = 0usize;
+                loop {
+                    if self.stop { return; }
+                    if position == 1 {
+                        self.exec_advance(*delta_ns);
+                        if self.stop { return; }
+                        if keys.iter().any(|k| self.at_deadline(*k)) { return; }
+                        self.counts.inc("iterators_interrupted_by_the_clock_passing_a_deadline");
+                    }
+                    let item = match (&mut plain, &mut mapped) { (Some(it), _) => it.next(), (_, Some(it)) => it.next(), _ => None };
+                    match item {
+                        Some(value) => {
+                            if position >= keys.len() { self.fail(&["C02"], format!("C02/multi-read-length/{}", name), format!("{} over {} keys produced more items than keys", name, keys.len())); return; }
+                            self.lookups += 1;
+                            self.judge_read(keys[position], value, name, if position == 0 { "first item of an interrupted iterator" } else { "item yielded after the clock had moved" });
+                            position += 1;
+                        }
+                        None => break,
+                    }
+                }
+                if !self.stop && position != keys.len() {
+                    self.fail(&["C02"], format!("C02/multi-read-length/{}", name), format!("{} over {} keys produced {} results", name, keys.len(), position));
+                }
             }
             Step::IterAcrossWrite { keys, variant, write } => {
                 if keys.iter().any(|k| self.at_deadline(*k)) { return; }
